@@ -5,7 +5,7 @@ per-type boundary pools is executed *through the VM* (parse, push, call) in fork
 watchdog, an instruction budget (virtual clock) and an allocation limit. Outcome must be a value or an SQF
 diagnostic; anything else (signal, sanitizer report, escaped C++ exception, hang, allocation limit) is a violation.
 """
-import itertools, os
+import re, itertools, os
 from ..engine import Space
 from .. import build as B
 
@@ -102,6 +102,11 @@ EXEMPLARS = [['"%99999999999"', "1"], ['"%1 %0 %2147483648 %"', "1"], ['"Land_Te
              ['"_a"', '["_b", 1]', '["_c", 2, [0]]', '["_d", 3, [0], 1]'], ["OBJ", '"iso_v"'], ['[["a",1],["b",2]]'], ["0", "2"], ["[0,0,0]", '["All"]', "10"]]
 
 
+SCALAR_LIT = re.compile(r"^-?[0-9.]+$")
+SCALAR_EDGE = ["0.25", "0.49", "-0.25", "0.5", "1.5", "-1", "1e10", "-1e10", "(sqrt -1)", "(1e38*10)", "(-1e38*10)", "1e-30", "2147483648"]
+SCALAR_EDGE_Q = ["0.25", "-0.25", "1e10", "(sqrt -1)", "(1e38*10)"]
+
+
 def near_valid(reps, full):
     out = []
     for ex in EXEMPLARS:
@@ -111,6 +116,10 @@ def near_valid(reps, full):
             for r in (reps if full else reps[:3]) + ["nil"]:
                 if r != ex[i]:
                     out.append("[" + ",".join(ex[:i] + [r] + ex[i + 1:]) + "]")   # one element of another type / value
+            if SCALAR_LIT.match(ex[i]):                                          # a number stays a number: boundary and fractional values
+                for r in (SCALAR_EDGE if full else SCALAR_EDGE_Q):
+                    if r != ex[i]:
+                        out.append("[" + ",".join(ex[:i] + [r] + ex[i + 1:]) + "]")
         out.append("[" + ",".join(ex + ["0"]) + "]")                           # one element too many
     seen, res = set(), []
     for a in out:
